@@ -50,7 +50,7 @@ TRUSTED_BASE = [
 ]
 ASSUMPTIONS = [
     "history theorems (C20_history_correct_total, C20_bodies_history_correct): kernel graphs as encode produces them (kernel_total_ok, decidable) with one data arity per history; no assumption on attributes (since fix 29d845f) nor on the merge succeeding (C20_merge_succeeds); decode_sound/valid_mapping_sem/switch_count hold for any well-formed abstract graph",
-    "the decidable hypotheses of the theorems (pe_wf of every merged graph, kernel_total_ok of every encoded graph, block_ordered) are evaluated by the model on every real graph of the run (L1 kinds wf, kok, ord)",
+    "the decidable hypotheses of the theorems (pe_wf of every merged graph, kernel_total_ok of every encoded graph, body_total_ok of every generated body, block_ordered) are evaluated by the model on every real graph of the run (L1 kinds wf, kok, ord)",
     "the meaning of a scalar operation is an arbitrary function of (op name, attributes, operand values) (Section variable opsem); types are not modelled beyond their role in the choose-op ids",
     "a PE is evaluated demand-driven: only the choose ops on the selected paths are evaluated (hardware: all units compute, muxes select)",
     "the switch values of a call are consumed in switch order by the muxes and by the choose ops with more than one alternative (one-alternative switches are removed, as remove-one-option-switches does)",
@@ -889,6 +889,9 @@ def _l1_history(ctx, conv, cases, meta, pre, texts, order):
         # what the theorems assume of an encoded kernel graph (concrete, unique ids, well-formed)
         cases["kok"].append(c_pe(cpe))
         meta["kok"].append(dict(text=texts[ki]))
+        # the hypothesis of C20_bodies_history_correct_total on the real body
+        cases["bok"].append(c_body(b))
+        meta["bok"].append(dict(text=texts[ki]))
         if G is None:
             G = pe
         else:
@@ -947,7 +950,7 @@ def correspondence(ctx):
     rng = ctx.rng
     n = ctx.n(60, 600)
     _REG.clear()
-    cases = {k: [] for k in ("enc", "app", "dec", "tsw", "wf", "kok", "ord")}
+    cases = {k: [] for k in ("enc", "app", "dec", "tsw", "wf", "kok", "ord", "bok")}
     meta = {k: [] for k in cases}
     conv = Conv()
     pre = []  # disagreements found on the Python side: the implementation hangs / returns a graph outside the PE form
@@ -966,11 +969,12 @@ def correspondence(ctx):
         "tsw": "fun c : pe * option nat => opt_eqb Nat.eqb (true_switches (fst c)) (snd c)",
         "wf": "pe_wf",
         "kok": "kernel_total_ok",
+        "bok": "body_total_ok",
         "ord": "fun c : pe * bool => Bool.eqb (block_ordered (fst c)) (snd c)",
     }
     # shards: few files (every coqc start costs seconds), each with one list per kind
     types = {"enc": "body * option pe", "app": "pe * pe * option pe", "dec": "pe * pe * option (list Z)",
-             "tsw": "pe * option nat", "wf": "pe", "kok": "pe", "ord": "pe * bool"}
+             "tsw": "pe * option nat", "wf": "pe", "kok": "pe", "ord": "pe * bool", "bok": "body"}
     kinds = list(tests)
     NSH = 4 if not ctx.thorough else 8
     shards = [{k: [] for k in kinds} for _ in range(NSH)]
